@@ -88,7 +88,7 @@ def rename(desc, style, rng):
         pool = []
         for k in ("synth_asign", "synth_exit_latch", "synth_exit", "synth_head",
                   "synth_return", "synth_tail", "synth_fill", "synth_exit_branch"):
-            for i in range(4):
+            for i in (0, 1, 2, 3, 10, 11):
                 pool.append("%s_block_%d" % (k, i))
         for k in ("loop", "head", "branch", "tail"):
             for i in range(3):
